@@ -11,3 +11,16 @@ Theorem C11_enum_sound_complete :
   In x (all_asg sz L) /\ matches L mask x = true /\ v = eval r L t x /\ v <> 0%Z.
 Proof. exact enum_sound_complete. Qed.
 Print Assumptions C11_enum_sound_complete.
+
+(** the visited assignments are strictly increasing in lexicographic order
+    (level L most significant): in particular each is visited exactly once *)
+Theorem C11_enum_strictly_increasing :
+  forall (sz : nat -> nat) r L t mask,
+  Sorted.StronglySorted (lex_lt L) (map fst (enum sz r L t mask)).
+Proof. exact enum_strictly_increasing. Qed.
+Print Assumptions C11_enum_strictly_increasing.
+
+Theorem C11_lex_order_is_strict :
+  forall L x y z, ~ lex_lt L x x /\ (lex_lt L x y -> lex_lt L y z -> lex_lt L x z).
+Proof. intros L x y z. split; [apply lex_lt_irrefl|apply lex_lt_trans]. Qed.
+Print Assumptions C11_lex_order_is_strict.
